@@ -128,7 +128,8 @@ Print Assumptions C32_locked_refuses.
 (* a failed write attempt against a branch lock that was left behind (repository free) leaves the
    repository free -- in particular a failed Lock does not lock the repository *)
 Theorem C32_stale_lock_refusals_leave_repository_free : forall c x o r x1 ob x2,
-  locked x = false -> step c x StaleLock = (r, x1) -> mutating o = true -> step c x1 o = (ob, x2) ->
+  locked x = false -> mine x = false ->
+  step c x StaleLock = (r, x1) -> mutating o = true -> step c x1 o = (ob, x2) ->
   ob = OE "LockContention"%string /\ x2 = x1 /\ rlocked x2 = false /\ locked x2 = true.
 Proof. exact stale_lock_refusals_leave_repository_free. Qed.
 Print Assumptions C32_stale_lock_refusals_leave_repository_free.
